@@ -60,6 +60,20 @@ func (r *Runner) execCallVals(st *State, f *Frame, common *ssa.CallCommon, fnv V
 	var bindings []Val
 	if common.IsInvoke() {
 		recv := fnv
+		if recv.Lk != nil {
+			// sync.Locker known (by a `cond F on M` declaration) to be a specific mutex
+			switch common.Method.Name() {
+			case "Lock":
+				r.lockAcquire(st, recv.Lk, "w", pos)
+				return
+			case "RLock":
+				r.lockAcquire(st, recv.Lk, "r", pos)
+				return
+			case "Unlock", "RUnlock":
+				r.lockRelease(st, recv.Lk, pos, common.Method.Name() == "RUnlock")
+				return
+			}
+		}
 		r.panicCheck(st, "nil", exprText(f.fn, common.Value)+"."+common.Method.Name(), Ne(recv.C[0], Zero), pos)
 		// dynamic type known?
 		if n, ok := litVal(recv.C[0]); ok && n.IsInt64() {
@@ -197,6 +211,9 @@ func (r *Runner) havocAllHeaps(st *State) {
 		if strings.HasPrefix(k, "closed:") {
 			st.ghost[k] = Fresh("closed", SBool)
 		}
+		if strings.HasPrefix(k, "spec:") {
+			st.ghost[k] = Fresh("ghost", SInt)
+		}
 	}
 }
 
@@ -309,8 +326,11 @@ func (r *Runner) contractCall(st *State, f *Frame, sp *FuncSpec, callee *ssa.Fun
 	if sp.ModAll {
 		r.havocAllHeaps(st)
 	}
+	var tgts []ModTarget
 	for _, m := range sp.Modifies {
-		tgt := env.evalMod(m)
+		tgts = append(tgts, env.evalModSafe(m))
+	}
+	for _, tgt := range tgts {
 		r.havocTarget(st, tgt)
 	}
 	st.bumpW()
@@ -353,6 +373,8 @@ func (r *Runner) contractCall(st *State, f *Frame, sp *FuncSpec, callee *ssa.Fun
 
 func (r *Runner) havocTarget(st *State, t ModTarget) {
 	switch {
+	case t.Ghost != "":
+		st.ghost["spec:"+t.Ghost] = Fresh("ghost_"+t.Ghost, SInt)
 	case t.Place != nil:
 		ty, _, _ := t.Place.typeAt()
 		nv := freshVal("mod", ty)
@@ -361,8 +383,21 @@ func (r *Runner) havocTarget(st *State, t ModTarget) {
 		st.store(t.Place, nv)
 	case t.Slice != nil:
 		et := elemOf(t.Slice.T)
-		for k := range layout(et) {
+		for k, lf := range layout(et) {
 			old := st.backingArr(*t.Slice, et, k)
+			if n, ok := litVal(Sub(t.Hi, t.Lo)); ok && n.IsInt64() && n.Int64() <= 16 && (lf.Sort == SInt || lf.Sort == SBool) {
+				// small literal range: quantifier-free update with fresh elements
+				na := old
+				for i := int64(0); i < n.Int64(); i++ {
+					ev := Val{T: lf.GoT, C: []Term{Fresh("model", lf.Sort)}}
+					if len(layout(et)) == 1 {
+						st.assumeRange(Val{T: et, C: ev.C})
+					}
+					na = Store(na, Add(Add(t.Slice.C[1], t.Lo), IntLit(i)), ev.C[0])
+				}
+				st.setBackingArr(*t.Slice, et, k, na)
+				continue
+			}
 			na := Fresh("modarr", old.Sort)
 			j := BoundVar("j")
 			lo, hi := Add(t.Slice.C[1], t.Lo), Add(t.Slice.C[1], t.Hi)
